@@ -49,9 +49,9 @@ Proofs/GroupFacts.vos Proofs/GroupFacts.vok Proofs/GroupFacts.required_vos: Proo
 Props/C20.vo Props/C20.glob Props/C20.v.beautified Props/C20.required_vo: Props/C20.v Base/Bytes.vo Model/Resp.vo Proofs/BytesFacts.vo Proofs/RespFacts.vo
 Props/C20.vio: Props/C20.v Base/Bytes.vio Model/Resp.vio Proofs/BytesFacts.vio Proofs/RespFacts.vio
 Props/C20.vos Props/C20.vok Props/C20.required_vos: Props/C20.v Base/Bytes.vos Model/Resp.vos Proofs/BytesFacts.vos Proofs/RespFacts.vos
-Props/C15.vo Props/C15.glob Props/C15.v.beautified Props/C15.required_vo: Props/C15.v Base/Bytes.vo Model/Resp.vo Model/Types.vo Model/Strings.vo Model/Streams.vo Proofs/BytesFacts.vo Proofs/StreamFacts.vo
-Props/C15.vio: Props/C15.v Base/Bytes.vio Model/Resp.vio Model/Types.vio Model/Strings.vio Model/Streams.vio Proofs/BytesFacts.vio Proofs/StreamFacts.vio
-Props/C15.vos Props/C15.vok Props/C15.required_vos: Props/C15.v Base/Bytes.vos Model/Resp.vos Model/Types.vos Model/Strings.vos Model/Streams.vos Proofs/BytesFacts.vos Proofs/StreamFacts.vos
+Props/C15.vo Props/C15.glob Props/C15.v.beautified Props/C15.required_vo: Props/C15.v Base/Bytes.vo Model/Resp.vo Model/Types.vo Model/Strings.vo Model/Streams.vo Proofs/BytesFacts.vo Proofs/StreamFacts.vo Proofs/GroupFacts.vo
+Props/C15.vio: Props/C15.v Base/Bytes.vio Model/Resp.vio Model/Types.vio Model/Strings.vio Model/Streams.vio Proofs/BytesFacts.vio Proofs/StreamFacts.vio Proofs/GroupFacts.vio
+Props/C15.vos Props/C15.vok Props/C15.required_vos: Props/C15.v Base/Bytes.vos Model/Resp.vos Model/Types.vos Model/Strings.vos Model/Streams.vos Proofs/BytesFacts.vos Proofs/StreamFacts.vos Proofs/GroupFacts.vos
 Props/C16.vo Props/C16.glob Props/C16.v.beautified Props/C16.required_vo: Props/C16.v Base/Bytes.vo Model/Resp.vo Model/Types.vo Model/Strings.vo Model/Streams.vo Proofs/BytesFacts.vo Proofs/StreamFacts.vo Proofs/GroupFacts.vo
 Props/C16.vio: Props/C16.v Base/Bytes.vio Model/Resp.vio Model/Types.vio Model/Strings.vio Model/Streams.vio Proofs/BytesFacts.vio Proofs/StreamFacts.vio Proofs/GroupFacts.vio
 Props/C16.vos Props/C16.vok Props/C16.required_vos: Props/C16.v Base/Bytes.vos Model/Resp.vos Model/Types.vos Model/Strings.vos Model/Streams.vos Proofs/BytesFacts.vos Proofs/StreamFacts.vos Proofs/GroupFacts.vos
